@@ -440,7 +440,9 @@ func (g *Gen) numExpr(d int) L.Expr {
 	case 7:
 		return bin("-", g.expr(KNum, d-1), g.expr(KNum, d-1))
 	case 8:
-		m := numLits[g.n(5, "fmodk")]
+		// divisors that are powers of two: a/b, floor and the product are exact, so the 5.1 definition
+		// a - floor(a/b)*b and an fmod-based one agree (elsewhere they differ in the last bits and the case is discarded)
+		m := []float64{0.5, 0.25, 2, 8, 1024}[g.n(5, "fmodk")]
 		return bin("%", g.expr(KNum, d-1), num(m))
 	default:
 		return un("-", g.expr(KNum, d-1))
